@@ -5,18 +5,197 @@ use vcore::skel::{skel_opt, Opt};
 use vcore::syngen::{SynGen, SynOpts};
 use vcore::{json, search, Ctx, Fail, Stats, Tape, J};
 
+static GRAMMAR: std::sync::OnceLock<vcore::earley::Grammar> = std::sync::OnceLock::new();
+
+/// Is the text derivable from the ABNF oracle (RFC 8610 + RFC 9682 + documented leniencies)?
+pub fn derivable(text: &str) -> bool {
+  GRAMMAR.get_or_init(vcore::cddl_abnf::grammar).recognizes("cddl", text)
+}
+
+/// derivable with identifiers and numbers never split (the reading every tokenising implementation uses)
+pub fn derivable_strict(text: &str) -> bool {
+  vcore::cddl_abnf::strict(GRAMMAR.get_or_init(vcore::cddl_abnf::grammar), text)
+}
+
+static RELAXED: std::sync::OnceLock<vcore::earley::Grammar> = std::sync::OnceLock::new();
+
+/// derivable from the oracle extended by the relaxations of open findings
+fn derivable_relaxed(ctx: &Ctx, text: &str) -> bool {
+  RELAXED.get_or_init(|| vcore::cddl_abnf::grammar_with(&|name| ctx.excl(name))).recognizes("cddl", text)
+}
+
+/// under-acceptance that is recorded as an open finding: (exclusion name, predicate on the text)
+fn under_acceptance_excluded(ctx: &Ctx, text: &str, st: &mut Stats) -> bool {
+  let b = text.as_bytes();
+  let radix_float = |p: &[u8]| {
+    // 0x.. / 0b.. mantissa followed by a fraction or exponent that is not a hexfloat
+    (0..b.len().saturating_sub(2)).any(|i| b[i] == b'0' && (b[i + 1] | 0x20 == p[0]) && {
+      let mut j = i + 2;
+      while j < b.len() && b[j].is_ascii_hexdigit() && !(p[0] == b'b' && b[j] | 0x20 == b'e') {
+        j += 1;
+      }
+      j < b.len() && (b[j] == b'.' || b[j] | 0x20 == b'e')
+    })
+  };
+  // '$' is an EALPHA: "$", "$$", "$1", "$-a"... are identifiers; the crate only knows '$' / '$$' as prefixes of a name
+  let dollar_form = (0..b.len()).any(|i| b[i] == b'$' && (i + 1 >= b.len() || !(b[i + 1].is_ascii_alphabetic() || b[i + 1] == b'@' || b[i + 1] == b'_' || b[i + 1] == b'$')))
+    || text.contains("$$$");
+  let table: [(&str, bool); 3] = [
+    ("c03:dollar_identifier_forms", dollar_form),
+    ("c03:radix_float_mantissa", radix_float(b"x") || radix_float(b"b")),
+    ("c03:escaped_quote_in_bytes", text.contains("\\'")),
+  ];
+  for (name, hit) in table {
+    if hit && ctx.excl(name) {
+      st.exclude(name);
+      return true;
+    }
+  }
+  false
+}
+
+const ALPHABET: &[&str] = &[
+  "=", "/=", "//=", "/", "//", "(", ")", "[", "]", "{", "}", "<", ">", ",", ":", "=>", "^", "*", "?", "+", "#", "#6", "#6.1", "#7.", "&", "~", "..", "...", ".",
+  "\"", "'", ";", " ", "\n", "\r\n", "\t", "a", "b", "int", "1", "0", "-", "$", "$$", "@", "_", "h'", "b64'", "H'", "\\", ".size", ".cbor", ".cborseq", ".foo", "0x", "0b",
+  "1e", "e5", ".5", "1.", "2*3", "\"x\"", "'y'", "\\u{41}", "\\u0041", "\\q", "\u{e9}", "; c\n",
+];
+
+fn mutate(t: &mut Tape, text: &str) -> String {
+  let mut s = text.to_string();
+  let edits = 1 + t.below(2);
+  for _ in 0..edits {
+    let idxs: Vec<usize> = s.char_indices().map(|(i, _)| i).chain(std::iter::once(s.len())).collect();
+    let at = idxs[t.below(idxs.len())];
+    match t.weighted(&[30, 35, 10, 15, 10]) {
+      0 => {
+        if at < s.len() {
+          let l = s[at..].chars().next().unwrap().len_utf8();
+          s.replace_range(at..at + l, "");
+        }
+      }
+      1 => s.insert_str(at, *t.pick(ALPHABET)),
+      2 => s.truncate(at),
+      3 => {
+        if at < s.len() {
+          let l = s[at..].chars().next().unwrap().len_utf8();
+          s.replace_range(at..at + l, *t.pick(ALPHABET));
+        }
+      }
+      _ => {
+        // swap two adjacent characters
+        let cs: Vec<char> = s.chars().collect();
+        if cs.len() >= 2 {
+          let k = t.below(cs.len() - 1);
+          let mut c2 = cs.clone();
+          c2.swap(k, k + 1);
+          s = c2.into_iter().collect();
+        }
+      }
+    }
+  }
+  s
+}
+
+/// both directions on an arbitrary text. Err((law, message))
+fn agreement(ctx: &Ctx, text: &str, st: &mut Stats, relax: bool) -> Result<(bool, bool), (String, String)> {
+  let strict = derivable(text);
+  let got = match calls::with_parsed(text, |_| ()) {
+    Ok(()) => Ok(()),
+    Err(Ok(e)) => Err(e),
+    Err(Err(p)) => return Err(("parser_panic".into(), format!("the parser panicked at {}", p))),
+  };
+  match (&got, strict) {
+    (Ok(()), true) | (Err(_), false) => {}
+    (Ok(()), false) => {
+      if relax && derivable_relaxed(ctx, text) {
+        st.exclude("over_acceptance_listed_as_open_finding");
+      } else {
+        return Err(("accepts_underivable_text".into(), "the parser accepts a text that is not derivable from the RFC 8610 / RFC 9682 ABNF (with the documented leniencies)".into()));
+      }
+    }
+    (Err(_), true) if !derivable_strict(text) => {
+      // derivable only by splitting an identifier or number in the middle: either verdict is accepted
+      st.count("derivable_only_with_split_tokens(not asserted)");
+    }
+    (Err(e), true) => {
+      // derivable but rejected: only a syntax error is a grammar disagreement (duplicate rules, literal
+      // values out of range, malformed base16 / base64 content are rejected after parsing by design)
+      // On arbitrary (mutated) texts this direction is only counted: a derivable text may be rejected after parsing
+      // by design (duplicate rules, literal values out of range, malformed base16 / base64 content), and many
+      // derivations of mutated texts exist only because an optional element is left out where an ordered-choice
+      // parser commits to taking it ("2*310=>b" as "2*" "310=>b").  Derivable => accepted is asserted by the
+      // sub-check `positive`, whose texts come from derivations with unambiguous token boundaries.
+      let first = e.lines().next().unwrap_or("");
+      let _ = under_acceptance_excluded(ctx, text, st);
+      st.count(if first.contains("msg: expected") || first.contains("syntax error") { "derivable_rejected_with_syntax_error(not asserted)" } else { "derivable_rejected_after_parsing(not a grammar matter)" });
+    }
+  }
+  Ok((strict, got.is_ok()))
+}
+
 pub fn syn_opts(ctx: &Ctx) -> SynOpts {
   let mut o = SynOpts::default();
   o.no_double_dash_ids = ctx.excl("id_double_dash");
   o.no_group_socket_in_type_pos = ctx.excl("group_socket_in_type_position");
+  o.no_type_socket_in_group_pos = ctx.excl("type_socket_in_group_position");
+  o.no_paren_at_arrow_key_head = ctx.excl("c03:paren_at_arrow_key_head");
+  o.radix_float_literals = !ctx.excl("c03:radix_float_mantissa");
+  o.escaped_quote_in_bytes = !ctx.excl("c03:escaped_quote_in_bytes");
   o
 }
 
 /// positive direction + AST mirroring: a text derived from the grammar must be accepted and
 /// its AST must have the skeleton of the derivation
+/// `(tag <...> ` -> `(tag <> `: the type inside `#6.<...>` is kept as raw source text (open finding C16-F1), so
+/// its spelling (optional commas, comments) cannot be compared with the derivation
+fn blank_tag_types(sk: &str) -> String {
+  let b: Vec<char> = sk.chars().collect();
+  let mut out = String::new();
+  let mut i = 0;
+  let pat: Vec<char> = "(tag <".chars().collect();
+  while i < b.len() {
+    if b[i..].starts_with(&pat) {
+      out.push_str("(tag <");
+      i += pat.len();
+      let mut depth = 1;
+      let mut quote: Option<char> = None;
+      while i < b.len() && depth > 0 {
+        let c = b[i];
+        match quote {
+          Some(q) => {
+            if c == '\\' {
+              i += 1;
+            } else if c == q {
+              quote = None;
+            }
+          }
+          None => match c {
+            '"' | '\'' => quote = Some(c),
+            '<' => depth += 1,
+            '>' if i > 0 && b[i - 1] != '=' => depth -= 1,
+            _ => {}
+          },
+        }
+        i += 1;
+      }
+      out.push('>');
+    } else {
+      out.push(b[i]);
+      i += 1;
+    }
+  }
+  out
+}
+
 pub fn check_positive(text: &str, expected: &str) -> Result<(), String> {
+  check_positive_opt(text, expected, false)
+}
+
+pub fn check_positive_opt(text: &str, expected: &str, blank_tags: bool) -> Result<(), String> {
   match calls::with_parsed(text, |c| skel_opt(c, &Opt { normalize_bare_names: true })) {
     Ok(sk) => {
+      let (sk, expected) = if blank_tags { (blank_tag_types(&sk), blank_tag_types(expected)) } else { (sk, expected.to_string()) };
+      let expected = expected.as_str();
       if sk == expected {
         Ok(())
       } else {
@@ -49,6 +228,22 @@ pub fn replay(_ctx: &Ctx, case: &J) -> Result<(), String> {
       let exp = case["expected_skel"].as_str().ok_or("no expected_skel")?;
       check_positive(text, exp)
     }
+    "accepts_derivable" => {
+      let text = case["text"].as_str().ok_or("no text")?;
+      if !derivable_strict(text) {
+        return Err("harness: the witness is not derivable".into());
+      }
+      match calls::parses(text) {
+        Some(true) => Ok(()),
+        Some(false) => Err("[rejects_derivable_text] the parser rejects a derivable text".into()),
+        None => Err("parser panic".into()),
+      }
+    }
+    "agreement" => {
+      let text = case["text"].as_str().ok_or("no text")?;
+      let mut st = Stats::default();
+      agreement(_ctx, text, &mut st, false).map(|_| ()).map_err(|(l, m)| format!("[{}] {}", l, m))
+    }
     other => Err(format!("unknown check {}", other)),
   }
 }
@@ -64,7 +259,7 @@ pub fn run(ctx: &Ctx) {
      names, sockets, kind, assignment operator, generic parameters, nesting of choices/groups/occurrences/member \
      keys/operators, literal values). Non-trivial: >= 2 rules or >= 2 bracketed constructs; distinct texts.",
   );
-  let n = ctx.tier.pick(20_000, 500_000);
+  let n = ctx.tier.pick(150_000, 4_000_000);
   let opts = syn_opts(ctx);
   search(ctx, "positive", n, 220, |t: &mut Tape, st: &mut Stats| {
     let s = SynGen::new(t, &opts).schema();
@@ -72,10 +267,16 @@ pub fn run(ctx: &Ctx) {
     let mut tr = TapeTrivia::new(t, with_comments);
     tr.tabs = true;
     tr.crlf = true;
+    tr.no_comments_in_tag_type = ctx.excl("comment_inside_tag_type_constraint");
     let text = render_with(&s, &mut tr);
     let exp = expected_skel(&s);
     st.eval();
-    match check_positive(&text, &exp) {
+    if !derivable_strict(&text) {
+      // the generator follows the RFC grammar: this would be a defect of the harness (generator or oracle)
+      let _ = std::fs::write("/tmp/c03_underivable.txt", &text);
+      panic!("generated text is not derivable from the oracle grammar: {:?}", text);
+    }
+    match check_positive_opt(&text, &exp, ctx.excl("comment_inside_tag_type_constraint")) {
       Ok(()) => {
         if nontrivial(&s, &text) && st.nontrivial(&text) {
           st.sample(&text, || json!({"text": text, "accepted": true}));
@@ -83,6 +284,40 @@ pub fn run(ctx: &Ctx) {
         Ok(())
       }
       Err(m) => Err(Fail::new(m, json!({"check": "positive", "text": text, "expected_skel": exp}))),
+    }
+  });
+
+  let fx: Vec<String> = vec![];
+  let _ = &fx;
+  search(ctx, "agreement", n * 2, 260, |t: &mut Tape, st: &mut Stats| {
+    let text = if t.chance(1, 5) {
+      let k = 1 + t.below(9);
+      let sep = if t.flag() { " " } else { "" };
+      (0..k).map(|_| *t.pick(ALPHABET)).collect::<Vec<_>>().join(sep)
+    } else {
+      let s = SynGen::new(t, &opts).schema();
+      let with_comments = t.flag();
+      let mut tr = TapeTrivia::new(t, with_comments);
+      tr.tabs = true;
+      tr.crlf = true;
+      let base = render_with(&s, &mut tr);
+      mutate(t, &base)
+    };
+    st.eval();
+    match agreement(ctx, &text, st, true) {
+      Ok((der, acc)) => {
+        st.count(match (der, acc) {
+          (true, true) => "derivable_accepted",
+          (false, false) => "underivable_rejected",
+          (true, false) => "derivable_rejected(after parsing or listed)",
+          (false, true) => "underivable_accepted(listed)",
+        });
+        if st.nontrivial(&text) {
+          st.sample(&text, || json!({"text": text, "derivable": der, "accepted": acc}));
+        }
+        Ok(())
+      }
+      Err((law, msg)) => Err(Fail::new(format!("[{}] {} ; text={:?}", law, msg, text), json!({"check": "agreement", "law": law, "text": text}))),
     }
   });
 }
